@@ -26,20 +26,35 @@ def exEnv0 : Env := { src := fun i => i, cls := fun _ _ => none }
 
 /-! ## regenerated arithmetic = model arithmetic -/
 
+/-- **What one iteration of `genRanges`' loop does** (`Gen.genRangesAction` is the decision tree of the loop's own tests,
+regenerated from whatever shape the loop has: 0 exit, 1 poll for a bigger STH and re-test, 2 emit a range): it emits
+exactly when `start < end`; otherwise it polls in continuous mode and exits in one-shot mode; and no path polls and then
+emits within the same iteration (a new end is always re-tested against `start`). -/
+theorem genRanges_action (start end_ : Int) (c : Bool) :
+    Gen.genRangesAction start end_ c = (if start < end_ then 2 else if c then 1 else 0) ∧
+    Gen.genRangesActionPollThenEmits = false := by
+  refine ⟨?_, by decide⟩
+  unfold Gen.genRangesAction
+  by_cases h : start < end_
+  · have h2 : ¬ (end_ ≤ start) := by omega
+    have h3 : ¬ (start = end_) := by omega
+    cases c <;> simp [h, h2, h3]
+  · have h2 : end_ ≤ start := by omega
+    cases c <;> simp [h, h2]
+
 /-- `genRanges`: while `start < end`, the loop runs, does not ask for a new STH, and sends the inclusive range
 `[start, start + min(end-start, batch) - 1]`, then continues from `start + min(end-start, batch)` — no int64
 wrap-around anywhere in the domain. -/
 theorem genRanges_arith (start end_ batch : Int) (c : Bool)
     (hs : 0 ≤ start) (hse : start < end_) (he : end_ < 2^63) (hb : 0 < batch) (hb' : batch < 2^63) :
-    Gen.genRangesMore start end_ c = true ∧ Gen.genRangesAtEnd start end_ = false ∧
+    Gen.genRangesAction start end_ c = 2 ∧
     Gen.genRangesBatch batch = batch ∧
     Gen.genRangesBatchEnd start end_ batch = start + min (end_ - start) batch ∧
     Gen.genRangesNext start (start + min (end_ - start) batch) = (start, start + min (end_ - start) batch - 1) ∧
     Gen.genRangesAdvance (start + min (end_ - start) batch) = start + min (end_ - start) batch := by
   have w : ∀ x : Int, -(2^63) ≤ x → x < 2^63 → I64.wrap64 x = x := I64.wrap64_id'
-  refine ⟨?_, ?_, ?_, ?_, ?_, ?_⟩
-  · simp [Gen.genRangesMore, hse]
-  · simp [Gen.genRangesAtEnd]; omega
+  refine ⟨?_, ?_, ?_, ?_, ?_⟩
+  · rw [(genRanges_action start end_ c).1]; simp [hse]
   · simp only [Gen.genRangesBatch]; exact w _ (by omega) hb'
   · have h1 : I64.sub end_ start = end_ - start := w _ (by omega) (by omega)
     simp only [Gen.genRangesBatchEnd, Gen.min64, h1, I64.add]
@@ -60,10 +75,11 @@ current tree), `genRanges` polls for a bigger STH and goes back to the loop test
 code computed the empty batch `[start, end-1]`, moved its cursor back to `end` and later delivered `end … start-1`;
 this theorem does not hold for that code, and the harness scenarios `b9` / `sb*` exhibit the delivered indices.) -/
 theorem genRanges_polls_at_end (start end_ : Int) (h : end_ ≤ start) :
-    Gen.genRangesAtEnd start end_ = true ∧ Gen.genRangesAtEndContinues = true := by
-  constructor
-  · simp [Gen.genRangesAtEnd]; omega
-  · decide
+    Gen.genRangesAction start end_ true = 1 ∧ Gen.genRangesAction start end_ false = 0 ∧ Gen.genRangesActionPollThenEmits = false := by
+  have h1 : ¬ (start < end_) := by omega
+  refine ⟨?_, ?_, (genRanges_action start end_ true).2⟩
+  · rw [(genRanges_action start end_ true).1]; simp [h1]
+  · rw [(genRanges_action start end_ false).1]; simp [h1]
 
 /-- the same statement in the vocabulary of the model state -/
 theorem hand_matches_code (s : St) (hc : s.cursor < s.end_) (hb : 0 < s.batch)
@@ -72,7 +88,7 @@ theorem hand_matches_code (s : St) (hc : s.cursor < s.end_) (hb : 0 < s.batch)
     Gen.genRangesNext s.cursor (batchEnd s : Nat) = ((s.cursor : Int), ((batchEnd s : Nat) : Int) - 1) ∧
     Gen.genRangesAdvance (batchEnd s : Nat) = (batchEnd s : Nat) := by
   have h := genRanges_arith s.cursor s.end_ s.batch s.continuous (by omega) (by omega) (by omega) (by omega) (by omega)
-  obtain ⟨_, _, h3, h4, h5, h6⟩ := h
+  obtain ⟨_, h3, h4, h5, h6⟩ := h
   have hbe : ((batchEnd s : Nat) : Int) = (s.cursor : Int) + min ((s.end_ : Int) - s.cursor) s.batch := by
     simp only [batchEnd]; omega
   rw [h3, h4, hbe, h5, h6]
@@ -398,14 +414,14 @@ theorem empty_answers_livelock (n : Nat) :
 the generator hands out empty ranges for ever (in the model: `hand` is never enabled, nothing else can progress). -/
 example : Gen.genRangesNext 5 (Gen.genRangesBatchEnd 5 9 0) = (5, 4) ∧ Gen.genRangesAdvance (Gen.genRangesBatchEnd 5 9 0) = 5 := by decide
 
-example : Gen.genRangesAtEnd 6 6 = true ∧ Gen.genRangesAtEnd 8 6 = true ∧ Gen.genRangesAtEnd 5 6 = false := by decide
+example : Gen.genRangesAction 6 6 true = 1 ∧ Gen.genRangesAction 8 6 true = 1 ∧ Gen.genRangesAction 5 6 true = 2 ∧ Gen.genRangesAction 8 6 false = 0 := by decide
 /-- start beyond the end of the tree, in the model: nothing is handed out until the log has grown past the start, and then
 only indices from the start on are delivered -/
 example : (run exEnv (init 8 5 2 1 1 true) [.hand 0, .grow 6, .hand 0, .grow 9, .hand 0, .resp 0 1]).delivered.map Prod.fst = [8] := by decide
 /-- **Domain boundary 4**: tree sizes of 2^63 and more are outside the domain of every theorem above (hypotheses `< 2^63`):
 `int64(sth.TreeSize)` wraps, `Prepare` then sets a negative end index (nothing is fetched, the scan "completes") and
 `updateSTH` would store a negative end. No log is that large; the model's indices are `Nat`. -/
-example : Gen.updateSTHNewEnd (2^63) = -(2^63) ∧ Gen.prepareResets (2^63) 0 = true ∧ Gen.genRangesMore 0 (Gen.updateSTHNewEnd (2^63)) false = false := by decide
+example : Gen.updateSTHNewEnd (2^63) = -(2^63) ∧ Gen.prepareResets (2^63) 0 = true ∧ Gen.genRangesAction 0 (Gen.updateSTHNewEnd (2^63)) false = 0 := by decide
 /-- cancellation mid-range against a dead server: two workers hold ranges, nothing ever answers; giving up + close ends the fetch -/
 example : quiescent (run exEnv (init 0 8 2 2 0 false) [.hand 0, .hand 1, .err 0, .cancel, .err 1, .abandon 0, .abandon 1, .close]) = true
     ∧ (run exEnv (init 0 8 2 2 0 false) [.hand 0, .hand 1, .err 0, .cancel, .err 1, .abandon 0, .abandon 1, .close]).abandoned = [(2, 4), (0, 2)] := by decide
